@@ -208,6 +208,11 @@ func exec(c px.Context, op string, args []sx.Sexp) core.Result {
 			return r.Result("FAIL panic assignability of the common type", true)
 		}
 		if !ca || !cb {
+			if lat.UnitUnsafe(a.Ty) || lat.UnitUnsafe(b.Ty) {
+				// known finding C04-common-unit: Unit is two-way assignable by definition (the exclusion of C01 / C03), so a type
+				// that holds Unit accepts and is accepted by everything and the fold of commonType passes through it
+				return r.Result("FAIL common-not-bound-unit the common type "+r.Out+" accepts its arguments: "+sx.B(ca)+" "+sx.B(cb), true)
+			}
 			stringy := func(t lat.Ty) bool {
 				return lat.ContainsK(t, "struct") || lat.ContainsK(t, "enum") || lat.ContainsK(t, "pat")
 			}
